@@ -1,0 +1,51 @@
+//go:build verif
+
+// Contracts for the deductive checker in /verif (gvc). Comments only.
+
+package regexanalysis
+
+//@ property C18
+//@ bv uint
+
+// saturating add: the exact sum, or MaxUint when the sum does not fit
+//@ func AcceptedLength$1$2
+//@   ensures result == ite(a + b < a, 18446744073709551615, a + b)
+
+// saturating increment
+//@ func AcceptedLength$1$1
+//@   modifies *v
+//@   ensures *v == ite(old(*v) == 18446744073709551615, 18446744073709551615, old(*v) + 1)
+
+// wfprog: every successor index of the compiled program is a valid instruction
+// index (assumed of syntax.Compile, which is external).
+//@ pure wfprog(p any) bool = forall(k, 0, len(p.Inst), int(p.Inst[k].Out) < len(p.Inst) && int(p.Inst[k].Arg) < len(p.Inst))
+
+// The memoised min/max walk: no panic under wfprog, and the alternation step combines
+// the two branch results as (min of mins, max of maxes) before the saturating add.
+// Termination of the walk as a whole is not proved (see DESIGN: it depends on the shape of
+// programs syntax.Compile emits); the bounded stand-in covers the walk's result.
+//@ func AcceptedLength$1
+//@   requires wfprog(p) && int(entry) < len(p.Inst) && cache != nil
+//@   modifies cache
+//@   ensures cache != nil
+//@   loop 1 invariant int(pos) < len(p.Inst) && wfprog(p)
+//@   loop 2 invariant -1 <= rangeindex && rangeindex < len(seen)
+//@   loop 2 decreases len(seen) - rangeindex
+//@   assert before call AcceptedLength$1#1: int(i.Out) < len(p.Inst)
+//@   assert before call AcceptedLength$1#2: int(i.Arg) < len(p.Inst)
+//@   assert before call AcceptedLength$1$2#1: minmin: r1.MinLength == ite(resultof("AcceptedLength$1#1", 0).MinLength < resultof("AcceptedLength$1#2", 0).MinLength, resultof("AcceptedLength$1#1", 0).MinLength, resultof("AcceptedLength$1#2", 0).MinLength)
+//@   assert before call AcceptedLength$1$2#1: maxmax: r1.MaxLength == ite(resultof("AcceptedLength$1#1", 0).MaxLength > resultof("AcceptedLength$1#2", 0).MaxLength, resultof("AcceptedLength$1#1", 0).MaxLength, resultof("AcceptedLength$1#2", 0).MaxLength)
+
+// The constant-suffix walk: no panic under wfprog; after an alternation *s is the longest
+// common suffix of the two branch suffixes (rule-site assertion at that return).
+// comsuf(a, b, n): the last n bytes of a and b agree
+//@ pure comsuf(a []byte, b []byte, n int) bool = n <= len(a) && n <= len(b) && forall(k, 0, n, a[len(a)-1-k] == b[len(b)-1-k])
+//@ func ConstantSuffix$1
+//@   requires wfprog(p) && int(pos) < len(p.Inst)
+//@   modifies *s
+//@   loop 1 invariant int(pos) < len(p.Inst) && wfprog(p)
+//@   loop 2 invariant -1 <= rangeindex && rangeindex < len(seen)
+//@   loop 2 decreases len(seen) - rangeindex
+//@   loop 3 invariant 0 <= i && i <= len(*s) && i <= len(s2) && comsuf(*s, s2, i)
+//@   loop 3 decreases len(*s) - i
+//@   assert before return#5: lcs: comsuf(at_loop(3, *s), s2, len(*s)) && forall(k, 0, len(*s), (*s)[k] == at_loop(3, *s)[len(at_loop(3, *s)) - len(*s) + k]) && (len(*s) == len(at_loop(3, *s)) || len(*s) == len(s2) || at_loop(3, *s)[len(at_loop(3, *s))-1-len(*s)] != s2[len(s2)-1-len(*s)])
